@@ -169,7 +169,7 @@ def generate(rng: random.Random, w: Optional[int] = None, n_statements: Optional
     flaw = None
     if flaws and rng.random() < 0.18:
         flaw = rng.choice(['segment-overlap', 'segment-unaligned', 'reserve-unaligned', 'beyond-memory', 'pad-unaligned',
-                           'segment-odd-word', 'reserve-odd-words', 'word-out-of-range'])
+                           'segment-odd-word', 'reserve-odd-words', 'word-out-of-range', 'reserve-negative'])
     flaw_at = rng.randrange(1, n + 1) if flaw else -1
     seg_starts = [0]
     extents: List[Tuple[int, int]] = []  # (first bit, last bit exclusive) of statement areas per segment, for overlap planning
@@ -177,7 +177,7 @@ def generate(rng: random.Random, w: Optional[int] = None, n_statements: Optional
     for index in range(n + 1):
         if index == flaw_at:
             kind = {'segment-overlap': 'segment', 'segment-unaligned': 'segment', 'segment-odd-word': 'segment',
-                    'reserve-unaligned': 'reserve', 'reserve-odd-words': 'reserve', 'beyond-memory': 'segment',
+                    'reserve-unaligned': 'reserve', 'reserve-odd-words': 'reserve', 'reserve-negative': 'reserve', 'beyond-memory': 'segment',
                     'pad-unaligned': 'pad', 'word-out-of-range': 'fj'}[flaw]  # type: ignore[index]
         elif index == 0:
             kind = 'fj'
@@ -244,6 +244,10 @@ def generate(rng: random.Random, w: Optional[int] = None, n_statements: Optional
             if index == flaw_at and flaw == 'reserve-unaligned':
                 bits = dw * rng.randrange(0, 4) + rng.randrange(1, w)
                 model.impossible.append('reserve size is not w-aligned')
+            elif index == flaw_at and flaw == 'reserve-negative':
+                # moving the address BACK: over what was already placed, or (right after a segment start) below the segment
+                bits = -dw * rng.randrange(1, 5)
+                model.impossible.append('reserve of a negative size')
             elif index == flaw_at and flaw == 'reserve-odd-words':
                 bits = dw * rng.randrange(0, 4) + w
                 model.impossible.append('reserve of an odd number of words leaves the segment 2w-misaligned')
